@@ -32,7 +32,9 @@ RULE = (
     'created and the file each was built from, stop requests received per '
     'job) must equal a dict/list model, every string handed to a template '
     'must be html.escape of the manifest string, default path/title must '
-    'follow the documented derivation, and status/capture must render. '
+    'follow the documented derivation, status/capture must render and '
+    'the capture page must leave the snapshot script of the lights in '
+    'the script directory. '
     'Non-trivial = a history with a repeated request for a running path, a '
     'hostile string, or a stop-all with >= 2 queued jobs. Distinct by '
     'manifest + request sequence.')
@@ -533,7 +535,26 @@ def machine_class(acc):
 
         @rule()
         def capture(self):
+            if self.site is None or self.failed:
+                return
+            target = os.path.join(self.site.script_path, '__snapshot__.ls')
+            if os.path.exists(target):
+                os.remove(target)
             self.guard(lambda: self.site.page('capture'), 'capture-page')
+            # the Capture button writes the snapshot script (the one the
+            # Retrieve entry of the shipped manifest runs)
+            text = None
+            if os.path.exists(target):
+                with open(target) as src:
+                    text = src.read()
+            if not self.failed and (
+                    text is None or 'set "A"' not in text
+                    or 'set "Z" zone' not in text):
+                self.report('capture-wrote-no-snapshot',
+                            'the capture page left {} in the script '
+                            'directory'.format(
+                                'no __snapshot__.ls' if text is None
+                                else repr(text[:80])))
 
         @rule(choice=st.integers(0, 10))
         def complete(self, choice):
